@@ -164,10 +164,3 @@ func VH_C03_table() {
 	}
 	vLog("visits", m.visits)
 }
-
-func asNode(v any) Node {
-	if v == nil {
-		return nil
-	}
-	return v.(Node)
-}
